@@ -2139,6 +2139,12 @@ impl<S, T> Drop for Client<S, T> {
         let mut guard = self.client_server_map.lock();
         guard.remove(&(self.process_id, self.secret_key));
 
+        // Whatever way the client task ends (including a panic while decoding a message),
+        // the client must disappear from the statistics.
+        if !self.cancel_mode {
+            self.stats.disconnect();
+        }
+
         // Dirty shutdown
         // TODO: refactor, this is not the best way to handle state management.
         if self.connected_to_server && self.last_server_stats.is_some() {
